@@ -26,16 +26,16 @@ type seqTask struct {
 }
 
 type seqResult struct {
-	Key     uint64         `json:"key"`
-	Viol    []string       `json:"viol,omitempty"`
-	Enabled []string       `json:"enabled,omitempty"`
-	Layout  string         `json:"layout"`
-	Verdict string         `json:"verdict"`
-	Blocked []string       `json:"blocked,omitempty"`
-	Steps   int            `json:"steps"`
-	Comp    string         `json:"comp,omitempty"`
-	Extra   map[string]int `json:"extra,omitempty"`
-	Features []string `json:"features,omitempty"`
+	Key      uint64         `json:"key"`
+	Viol     []string       `json:"viol,omitempty"`
+	Enabled  []string       `json:"enabled,omitempty"`
+	Layout   string         `json:"layout"`
+	Verdict  string         `json:"verdict"`
+	Blocked  []string       `json:"blocked,omitempty"`
+	Steps    int            `json:"steps"`
+	Comp     string         `json:"comp,omitempty"`
+	Extra    map[string]int `json:"extra,omitempty"`
+	Features []string       `json:"features,omitempty"`
 }
 
 // seqHooks lets a property customise the generic sequence execution.
